@@ -249,9 +249,16 @@ class ProgressBar(BaseProgress):
         """Context enter. """
         if self.title is not None:
             print(self.title, file=self._file, flush=True)
-        self._timer = Timer(1.0, self._print_status)
+        self._timer = Timer(1.0, self._timer_print_status)
         self._timer.start()
         return self
+
+    def _timer_print_status(self):
+        """Timer callback: print the status unless already exited. """
+        with self._lock:
+            if self._closed:
+                return
+            self._print_status()
 
     def _print_status(self):
         if self._step is None:
@@ -294,9 +301,11 @@ class ProgressBar(BaseProgress):
             self._timer.cancel()
             self._timer = Timer(1.0, self.update)
             self._timer.start()
-        if step is not None:
-            self._step = step
-        self._print_status()
+            if step is not None:
+                self._step = step
+            # printing under the lock: exit() waits for a callback that is
+            # already writing, so nothing is written after it has returned
+            self._print_status()
 
 
 PROGRESS_DICT = {
